@@ -1,4 +1,5 @@
 """C10 — restore fails loudly rather than produce a wrong or partial database."""
+import json
 import os
 import re
 
@@ -63,6 +64,76 @@ def restore_source_ops():
     return ok_path, fail_path
 
 
+LEGACY_CODES = {
+    70: ("C10/legacy-success-with-different-content-after-download-fault",
+         "legacy (v0.3.x) restore path: a read error while downloading a snapshot or WAL segment, or a stored object that "
+         "ends early, and RestoreV3 returned nil with a database other than the one the fault-free restore produces"),
+    71: ("C10/legacy-failed-restore-left-output",
+         "legacy (v0.3.x) restore path: RestoreV3 failed under a download fault but left a file at the output path"),
+}
+
+
+def legacy_phase(v):
+    """C10 on the legacy restore path: harness v3 -faultonly, spec oracle V3.Entry.v3_fault_ok
+    (model and theorems: coq/V3/Faults.v, closed in Properties/C19.v)."""
+    ok, o = C.coq_build(targets=["V3/Entry.vo"])
+    if ok:
+        ok, o = C.build_runner(["V3"])
+    if not ok:
+        v.violation("C10/runner-build-v3", o[-1500:], {"theorem_or_correspondence": "extraction of V3/Entry.v"}, False)
+        return
+    ok, o = C.build_harness("v3")
+    if not ok:
+        v.violation("C10/harness-build-v3", "harness v3 does not build against the current /repo tree: " + o[-1500:],
+                    {"theorem_or_correspondence": "correspondence v3_fault_ok (harness build)"}, False)
+        return
+    out = os.path.join(C.WORK, PID, "legacy")
+    os.makedirs(out, exist_ok=True)
+    cases = os.path.join(out, "cases.txt")
+    statsp = os.path.join(out, "stats.json")
+    for p in (cases, statsp):
+        if os.path.exists(p):
+            os.remove(p)
+    n = 6 if v.tier == "quick" else 40
+    a = [C.harness_bin("v3"), "v3", "-out", out, "-n", str(n), "-seed", str(v.seed), "-workers", str(max(4, C.NCPU)), "-faultonly"]
+    if v.tier != "quick":
+        a.append("-thorough")
+    rc, o = C.sh(a, timeout=6000)
+    if rc != 0 or not os.path.exists(cases) or not os.path.exists(statsp):
+        v.violation("C10/harness-run-v3", "harness exit %s: %s" % (rc, o[-1500:]),
+                    {"theorem_or_correspondence": "correspondence v3_fault_ok (harness run)"}, False)
+        return
+    total, mism, errors = C.run_runner(cases, ["V3"])
+    stats = json.load(open(statsp))
+    nfault = sum(c for k, c in stats["classes"].items() if "/fault/" in k)
+    if total == 0 or stats.get("cases", 0) != total or nfault == 0:
+        v.violation("C10/no-cases-v3", "the v3 harness wrote %s cases (%d fault jobs), the runner evaluated %d" % (stats.get("cases"), nfault, total),
+                    {"theorem_or_correspondence": "correspondence v3_fault_ok (harness run)"}, False)
+        return
+    v.coverage["legacy_path"] = {
+        "evaluations": total, "download_fault_jobs": nfault,
+        "rule": "legacy layouts from real SQLite histories; for the snapshot and up to three WAL segments of the fault-free "
+                "plan: a read error after 0, 1, half, all-but-one bytes of the stream the client hands out, and the stored "
+                "(LZ4) object cut at 0, 1, half, size-8, size-4, size-1 bytes; outcome = error with nothing at the output "
+                "path, or the fault-free database (V3.Entry.v3_fault_ok)",
+        "input_distribution": {k: c for k, c in stats["classes"].items() if "/fault/" in k},
+    }
+    by = {}
+    for m in mism:
+        if m["entry"] != "v3_fault_ok":
+            continue
+        try:
+            code = int(m["model"], 0)
+        except ValueError:
+            code = -1
+        by.setdefault(code, []).append(m)
+    for code, ms in sorted(by.items()):
+        sig, what = LEGACY_CODES.get(code, ("C10/legacy-oracle-%d" % code, "v3_fault_ok returned %d" % code))
+        v.violation(sig, "%s (%d such cases)" % (what, len(ms)),
+                    {"case_lines": C.case_with_defs(cases, ms[0]["line"]), "oracle_code": code,
+                     "how": "harness v3 -faultonly regenerates the layouts; the last element of the input is (seed, history, offset)"}, True)
+
+
 def run(v):
     proof_ok, problems = C.standard_proof_phase(v, PID)
     if not proof_ok:
@@ -114,6 +185,7 @@ def run(v):
         "model_mismatches": len(mism),
         "runner_errors": errors[:5],
     })
+    legacy_phase(v)
     fl = extra.get("integrity_failure_flavours") or {}
     if not fl.get("reported-as-rows") or not fl.get("statement-error"):
         v.violation("C10/harness-coverage-integrity-flavours",
